@@ -59,6 +59,75 @@ def _replace_macro_calls(text, macro, repl, counts, key):
     return ''.join(out)
 
 
+def _split_top_commas(s):
+    """splits macro arguments at top-level commas (outside brackets, strings, chars, comments)."""
+    parts, cur, i, n = [], [], 0, len(s)
+    while i < n:
+        kind, a, b = rs.next_code(s, i)
+        if kind != 'code':
+            cur.append(s[a:b])
+            i = b
+            continue
+        c = s[i]
+        if c in '([{':
+            k = rs.match_close(s, i)
+            cur.append(s[i:k + 1])
+            i = k + 1
+            continue
+        if c == ',':
+            parts.append(''.join(cur))
+            cur = []
+            i += 1
+            continue
+        cur.append(c)
+        i += 1
+    if ''.join(cur).strip():
+        parts.append(''.join(cur))
+    return parts
+
+
+def _rewrite_format_macros(text, counts):
+    """N3f (per-function option fmt=1): `format!("lit", a, b)` -> `verif_fmt2("lit", (a).vd(), (b).vd())` and
+    `"lit".to_string()` -> `verif_lit("lit")`: the literal and every argument stay visible to the verifier. Only `{}` placeholders."""
+    out = []
+    i = 0
+    n = len(text)
+    while i < n:
+        kind, a, b = rs.next_code(text, i)
+        if kind != 'code':
+            out.append(text[a:b])
+            i = b
+            continue
+        if text.startswith('format!', i) and not rs._ident_before(text, i):
+            j = i + len('format!')
+            while j < n and text[j].isspace():
+                j += 1
+            if j < n and text[j] in '([{':
+                k = rs.match_close(text, j)
+                args = _split_top_commas(text[j + 1:k])
+                lit = args[0].strip()
+                if not re.match(r'^"(?:[^"\\]|\\.)*"$', lit, re.S):
+                    raise ExtractError('unsupported', 'format! with a non-literal format string: %s' % lit[:40])
+                holes = re.findall(r'\{[^}]*\}', lit.replace('{{', '').replace('}}', ''))
+                if any(h != '{}' for h in holes) or '{{' in lit or '}}' in lit or len(holes) != len(args) - 1:
+                    raise ExtractError('unsupported', 'format! literal %s uses more than plain {} placeholders' % lit)
+                rest = [_rewrite_format_macros(x.strip(), counts) for x in args[1:]]
+                out.append('verif_fmt%d(%s%s)' % (len(rest), lit, ''.join(', (%s).vd()' % x for x in rest)))
+                counts['N3f_format_macro_kept_with_arguments'] = counts.get('N3f_format_macro_kept_with_arguments', 0) + 1
+                i = k + 1
+                continue
+        out.append(text[i])
+        i += 1
+    text = ''.join(out)
+
+    def lit(m):
+        counts['N3f_literal_to_string_kept'] = counts.get('N3f_literal_to_string_kept', 0) + 1
+        return 'verif_lit(%s)' % m.group(1)
+    # the literal itself is a string token: match on the raw text (a literal followed by .to_string())
+    text = re.sub(r'("(?:[^"\\]|\\.)*")\s*\.to_string\(\)', lit, text)
+    return text
+
+
 def _code_sub(text, pattern, repl, counts, key):
     """regex substitution applied only to code chunks (not strings / comments / chars)."""
     out = []
@@ -140,15 +209,25 @@ def _drop_cfg_test(text, counts):
     return text
 
 
-def normalise(text, counts, renames=None, keep_derive=('Clone', 'Copy')):
+def normalise(text, counts, renames=None, keep_derive=('Clone', 'Copy'), keep_fmt=False):
     text = _drop_doc_lines(text, counts)
     text = _drop_cfg_test(text, counts)
+    if keep_fmt:
+        text = _rewrite_format_macros(text, counts)
     text = _replace_macro_calls(text, 'format', 'verif_fmt()', counts, 'N3_format_macro')
     text = _replace_macro_calls(text, 'panic', 'verif_panic()', counts, 'N4_panic_macro')
     text = _replace_macro_calls(text, 'unreachable', 'verif_panic()', counts, 'N4_unreachable_macro')
     # string literal -> String conversions carry message text only
     text = re.sub(r'"(?:[^"\\]|\\.)*"\s*\.to_string\(\)', lambda m: _cnt(counts, 'N3_literal_to_string', 'verif_fmt()'), text)
     text = _code_sub(text, r'\bpub\s*\(\s*(?:crate|super)\s*\)', 'pub', counts, 'N1_visibility')
+    # N9: the elided lifetime of a reference in a const item's type is 'static; verus! wants it written
+    def _const_static(m):
+        ty = m.group(2)
+        if '&str' in ty:
+            counts['N9_const_str_lifetime_made_explicit'] = counts.get('N9_const_str_lifetime_made_explicit', 0) + 1
+            ty = ty.replace('&str', "&'static str")
+        return m.group(1) + ty + '='
+    text = re.sub(r'(\bconst\s+[A-Z_][A-Z0-9_]*\s*:\s*)([^=]*)=', _const_static, text)
     text = _code_sub(text, r'\|\s*_\s*\|', '|_e|', counts, 'N2_closure_underscore')
     text = _code_sub(text, r'\b(?:crate|super|self)(?:::[a-z_][a-z0-9_]*)+::(?=[a-z_][a-z0-9_]*\s*\()', '', counts, 'N7_module_path')
 
@@ -609,8 +688,13 @@ def build_unit(template, repo, variant='A'):
             renames[pos[0]] = pos[1]
             i += 1
             continue
+        if d == 'subst-re':
+            # //@subst-re "<regex>" "<replacement>" [n=k|*] : like //@subst, the old text given as a regular expression
+            pending_subst.append((re.compile(pos[0]), pos[1], kw.get('n', '1')))
+            i += 1
+            continue
         if d == 'subst':
-            pending_subst.append((pos[0], pos[1], int(kw.get('n', 1))))
+            pending_subst.append((pos[0], pos[1], kw.get('n', '1')))
             i += 1
             continue
         if d == 'item':
@@ -736,13 +820,16 @@ def build_unit(template, repo, variant='A'):
             raw = text[it.start:it.end]
             c = {}
             local_ren = dict(renames)
-            nt = normalise(raw, c, local_ren)
+            nt = normalise(raw, c, local_ren, keep_fmt=bool(kw.get('fmt')))
             for old_t, new_t, want_n in pending_subst:
-                k = nt.count(old_t)
-                if k != want_n:
-                    raise ExtractError('lost-anchor', '%s: operator text %r occurs %d times' % (name, old_t, k))
-                nt = nt.replace(old_t, new_t)
-                c['N8_operator_desugared:%s=>%s' % (old_t, new_t)] = want_n
+                is_re = not isinstance(old_t, str)
+                k = len(old_t.findall(nt)) if is_re else nt.count(old_t)
+                if (want_n == '*' and k < 1) or (want_n != '*' and k != int(want_n)):
+                    raise ExtractError('lost-anchor', '%s: operator text %r occurs %d times' % (name, old_t.pattern if is_re else old_t, k))
+                nt = old_t.sub(new_t, nt) if is_re else nt.replace(old_t, new_t)
+                if is_re:
+                    old_t = old_t.pattern
+                c['N8_operator_desugared:%s=>%s' % (old_t, new_t)] = k
             pending_subst = []
             if impl_ctx is not None:
                 for an, at in impl_assoc.items():
